@@ -169,7 +169,7 @@ func jarFileDigests(data []byte) (map[string]string, int, error) {
 	sigfiles := 0
 	for _, f := range zr.File {
 		up := strings.ToUpper(f.Name)
-		if strings.HasPrefix(up, "META-INF/") && (strings.HasSuffix(up, ".RSA") || strings.HasSuffix(up, ".EC") || strings.HasSuffix(up, ".DSA")) {
+		if strings.HasPrefix(up, "META-INF/") && !strings.Contains(up[len("META-INF/"):], "/") && (strings.HasSuffix(up, ".RSA") || strings.HasSuffix(up, ".EC") || strings.HasSuffix(up, ".DSA")) {
 			sigfiles++
 		}
 		if f.Name != "META-INF/MANIFEST.MF" {
